@@ -89,6 +89,15 @@ class FormRunner:
         self.tol = refeval.Tol(self.scalar_type, self.options.get("table_rtol", 1e-6), self.options.get("table_atol", 1e-9))
         return self
 
+    def attach(self, module, index):
+        """Use an already compiled multi-form module; this runner is form number `index` in it."""
+        self.module = module
+        self.cform = module.objects[index]
+        self.desc = kernels.read_form_descriptor(module.ffi, self.cform)
+        self.fd = refeval.compute_form_data(self.form, self.scalar_type)
+        self.tol = refeval.Tol(self.scalar_type, self.options.get("table_rtol", 1e-6), self.options.get("table_atol", 1e-9))
+        return self
+
     def groups(self):
         """[(itype, id)] present in the compiled descriptor, in descriptor order."""
         out = []
@@ -170,12 +179,12 @@ def nontrivial_c01(spec, fd=None):
 
 
 def evaluate_form_spec(spec, workdir, itypes=("cell",), scalar_type="float64", options=None, n_inputs=2,
-                       prop="C01", all_entities=False, nontrivial=nontrivial_c01, cflags=("-O1",), entity_picker=None):
+                       prop="C01", all_entities=False, nontrivial=nontrivial_c01, cflags=("-O1",), entity_picker=None,
+                       extra_check=None):
     """Generic differential evaluation -> Outcome."""
     classes = spec_classes(spec)
     sclean = strip_meta(spec)
     h = spec_hash(sclean)
-    sample = {"spec": sclean, "ufl": specs.to_source(sclean).split("\n")[-2][:400]}
     try:
         fr = FormRunner(spec, workdir, scalar_type=scalar_type, options=options, name="m" + h, cflags=cflags)
     except Exception:
@@ -188,12 +197,31 @@ def evaluate_form_spec(spec, workdir, itypes=("cell",), scalar_type="float64", o
         return Outcome("rejected", case_id=h, classes=classes + ["rejected:" + type(e.exc).__name__], what=str(e), sample=None)
     except kernels.CompileError as e:
         return Outcome("cc-error", case_id=h, classes=classes, what=e.stderr[-500:])
+    return evaluate_runner(fr, spec, itypes=itypes, n_inputs=n_inputs, prop=prop, all_entities=all_entities, nontrivial=nontrivial,
+                           extra_check=extra_check)
+
+
+def evaluate_runner(fr, spec, itypes=("cell",), n_inputs=2, prop="C01", all_entities=False, nontrivial=nontrivial_c01,
+                    extra_check=None, classes=None):
+    """Differential evaluation of a compiled FormRunner against the reference -> Outcome."""
+    classes = list(classes) if classes is not None else spec_classes(spec)
+    sclean = strip_meta(spec)
+    h = spec_hash(sclean)
+    scalar_type = fr.scalar_type
+    options = {k: v for k, v in fr.options.items() if k != "scalar_type"}
+    sample = {"spec": sclean, "ufl": specs.to_source(sclean).split("\n")[-2][:400]}
     replay_base = {"spec": sclean, "scalar_type": scalar_type, "options": options or {}, "ufl_source": specs.to_source(sclean)}
+    cellname = spec["cell"]
+    if extra_check is not None:
+        msg = extra_check(fr)
+        if msg:
+            kind, what = msg
+            return Outcome("violation", case_id=h, classes=classes, key=f"{prop}:{kind}:{h}", bucket=f"{prop}:{kind}:{cellname}", what=what,
+                           replay=replay_base, sample=sample)
     declared = fr.declared_groups()
     checked = 0
     unstable = 0
     unsupported = 0
-    cellname = spec["cell"]
     for itype, sid in declared:
         if itype not in itypes:
             continue
@@ -231,6 +259,7 @@ def evaluate_form_spec(spec, workdir, itypes=("cell",), scalar_type="float64", o
                     kind = "no-kernel"
                     what = f"no kernel registered under ({itype}, {sid}) for entity {ent} although the form declares one"
                 elif problems:
+                    kind = "guard"
                     what = f"kernel ({itype},{sid}) entity {ent}: " + "; ".join(problems)
                 else:
                     ok, worst, idx = compare(np.asarray(A) - A0, Aref, E + fr.tol.u * np.abs(A0))
@@ -240,7 +269,6 @@ def evaluate_form_spec(spec, workdir, itypes=("cell",), scalar_type="float64", o
                                 f"{Aref[idx] if idx else Aref!r} (error bound {TOL_FACTOR * (E[idx] if idx else E):.3e}, ratio {worst:.3g}); "
                                 f"max|A-Aref| = {np.nanmax(np.abs(d - Aref)):.3e}, max|Aref| = {np.max(np.abs(Aref)):.3e}")
                 if what:
-                    tags = ",".join(spec.get("_tags", []))
                     bucket = f"{prop}:{kind}:{itype}:{cellname}"
                     rp = dict(replay_base, itype=itype, subdomain_id=sid, entity=list(ent), data_seed=dseed, input_index=k)
                     return Outcome("violation", case_id=h, classes=classes, key=f"{prop}:{h}", bucket=bucket, what=what, replay=rp, sample=sample)
